@@ -457,10 +457,10 @@ impl Check for C10 {
         ]
     }
     fn cases(&self, tier: Tier) -> u64 {
-        tier.pick(400, 8_000)
+        tier.pick(1_000, 8_000)
     }
     fn min_nontrivial(&self, tier: Tier) -> u64 {
-        tier.pick(120, 2_000)
+        tier.pick(300, 2_000)
     }
     fn shard_budget(&self, tier: Tier) -> std::time::Duration {
         tier.pick(std::time::Duration::from_secs(200), std::time::Duration::from_secs(1500))
